@@ -80,12 +80,18 @@ fuzz_targets_for() {
 run_fuzz() {
   local targets; targets="$(fuzz_targets_for "$ID")"
   [[ -z "$targets" ]] && return 0
-  if [[ "$TREE" != "/repo" ]]; then echo "note: fuzz campaigns only run against /repo; skipped for $TREE" >&2; return 0; fi
   local FT="$VERIF_TARGET_BASE/fuzz" FW="$VERIF_TARGET_BASE/fuzzwork/$ID"
+  # cargo-fuzz takes no --config; a scratch tree is selected through a cargo config file found from
+  # the directory cargo is started in
+  local FCWD="$ROOT"
+  if [[ "$TREE" != "/repo" ]]; then
+    FCWD="$VERIF_TARGET_BASE/fuzzcwd"; mkdir -p "$FCWD/.cargo"
+    printf 'paths = ["%s"]\n[net]\noffline = true\n' "$TREE" > "$FCWD/.cargo/config.toml"
+  fi
   local secs="${VERIF_FUZZ_SECONDS:-150}" seed="${VERIF_SEED:-1}"; [[ "$seed" == "0" ]] && seed=1
   (
     flock 8
-    if ! (cd "$ROOT" && RUSTFLAGS="--cfg hpke_verif" cargo +nightly fuzz build -s none --fuzz-dir fuzz --target-dir "$FT" >"$FT.build.log" 2>&1); then
+    if ! (cd "$FCWD" && RUSTFLAGS="--cfg hpke_verif" cargo +nightly fuzz build -s none --fuzz-dir "$ROOT/fuzz" --target-dir "$FT" >"$FT.build.log" 2>&1); then
       echo "INFRA fuzz build failed (see $FT.build.log)" >&2; tail -n 20 "$FT.build.log" >&2; exit 2
     fi
   ) 8>"$VERIF_TARGET_BASE/.fuzz.lock" || return 2
